@@ -29,10 +29,12 @@ ENTRIES = [
 
 
 def run(ctx):
+    ctx.do(MI.rule_homdiv1)
     ctx.do(MI.rule_enum1, ["geometry_tools/hyperbolic.py", "geometry_tools/drawtools.py"])
     ctx.do(MI.rule_sgn1, ["geometry_tools/hyperbolic.py", "geometry_tools/utils/core.py"])
     ctx.do(MI.rule_rng1, only={"circle_angles"})
     ctx.do(D.rule_dr1)
+    ctx.do(D.rule_curax1)
     ctx.do(D.rule_dr2)
     ctx.do(D.rule_dr3)
     ctx.do(D.rule_dr4)
